@@ -2,6 +2,7 @@ package props
 
 import (
 	"go/ast"
+	"go/constant"
 	"go/token"
 	"go/types"
 	"sort"
@@ -91,6 +92,7 @@ func runC20(c *kit.Ctx) {
 	r4 := c.Rule("R4", "exactly one reply per request", 7)
 	r5 := c.Rule("R5", "unsubscribe before closing the database", 1)
 	r6 := c.Rule("R6", "consistent lock order", 1)
+	r7 := c.Rule("R7", "no blocking bus request from a store handler", 6)
 
 	reach := handlerReachable(c)
 	if len(reach) < 15 {
@@ -236,6 +238,110 @@ func runC20(c *kit.Ctx) {
 
 	// ---- R6
 	c20LockOrder(c, r6, reach)
+
+	// ---- R7
+	c20SelfRequest(c, r7)
+}
+
+// c20SelfRequest: each store subscription is served by one goroutine.  A
+// handler that issues a request/reply on the bus (nats Request, or a client
+// send helper with ack=true) waits for an answer; when the answer has to come
+// from a subscription of the same store (p.*, p.*.*, nodes.*, …) the handler
+// waits for itself until the timeout and every message queued behind it waits
+// too.  Constant boolean arguments (the ack flag) are propagated through the
+// module's helpers, deferred function literals included.
+func c20SelfRequest(c *kit.Ctx, r7 *kit.Rule) {
+	type key struct {
+		f    *kit.Func
+		bind string
+	}
+	memo := map[key]string{}
+	var reaches func(f *kit.Func, bind map[types.Object]string, depth int) string
+	reaches = func(f *kit.Func, bind map[types.Object]string, depth int) string {
+		if f == nil || f.Body == nil || depth > 6 {
+			return ""
+		}
+		var bk []string
+		for o, v := range bind {
+			bk = append(bk, o.Name()+"="+v)
+		}
+		sort.Strings(bk)
+		k := key{f, strings.Join(bk, ",")}
+		if v, ok := memo[k]; ok {
+			return v
+		}
+		memo[k] = "" // cut recursion
+		info := f.Info()
+		st := &kit.Std{F: f}
+		hit := ""
+		visitCallee := func(call *ast.CallExpr, s kit.S) {
+			if hit != "" {
+				return
+			}
+			q := kit.QualName(kit.Callee(info, call))
+			if strings.HasPrefix(q, natsPkg+".(*Conn).Request") {
+				hit = "`" + f.Str(call.Fun) + "` at " + f.At(call)
+				return
+			}
+			var cf *kit.Func
+			if lit, ok := ast.Unparen(call.Fun).(*ast.FuncLit); ok {
+				cf = c.P.LitFunc(f.PkgRel(), lit)
+			} else {
+				cf = f.CalleeFunc(call)
+			}
+			if cf == nil {
+				return
+			}
+			nb := map[types.Object]string{}
+			for i, p := range cf.Params() {
+				if i < len(call.Args) {
+					if v, ok := st.FoldExpr(call.Args[i], s); ok && v.Kind() == constant.Bool {
+						nb[p] = v.String()
+					}
+				}
+			}
+			if h := reaches(cf, nb, depth+1); h != "" {
+				hit = h + " via " + cf.Name + " (called at " + f.At(call) + ")"
+			}
+		}
+		st.OnCall = func(call *ast.CallExpr, n ast.Node, s kit.S) []kit.S {
+			if _, isGo := n.(*ast.GoStmt); isGo {
+				return nil
+			}
+			visitCallee(call, s)
+			return nil
+		}
+		st.OnNode = func(n ast.Node, s kit.S) []kit.S {
+			if d, ok := n.(*ast.DeferStmt); ok {
+				visitCallee(d.Call, s)
+			}
+			return []kit.S{s}
+		}
+		init := kit.NewS()
+		for o, v := range bind {
+			init = init.Set("v:"+kit.VarID(o), v)
+		}
+		res := c.P.Graph(f).Run(init, st.Client())
+		if res.Overflow {
+			c.Fatalf("R7 overflow in %s", f.Name)
+		}
+		memo[k] = hit
+		return hit
+	}
+	n := 0
+	for _, f := range c.P.Funcs("store") {
+		if f.Decl == nil || f.Body == nil || msgParam(f) == nil {
+			continue
+		}
+		n++
+		c.Analysed(f)
+		o := r7.Ob(f, nil, "handler "+f.Name, "no nats request/reply is reachable from this subscription handler (constant ack flags propagated)")
+		if h := reaches(f, nil, 0); h != "" {
+			o.Violation("the handler can issue the blocking bus request %s: it is served by the single goroutine of its subscription, so a request that the store itself must answer waits for the timeout and stalls every queued message", h)
+		} else {
+			o.OK("only fire-and-forget publishes reachable")
+		}
+	}
 }
 
 // c20LockOrder: "B acquired while A is held" edges over all handler-reachable
